@@ -20,11 +20,15 @@
       * `compact_canonical`: dump(parse(dump v)) = dump v.
       * `pretty_only_adds_whitespace` (+ `_wf`, `_default`): for every option record whose new_line_chars and indent_char
         are RFC 8259 white space, deleting white space outside string literals from the indented text gives the compact text.
-      Helper lemmas: Proofs/JsonNumberText (the number reader is local), Proofs/JsonEncodeParse, Proofs/JsonEncodeStrip.
+      * `pretty_parses_back`, `pretty_canonical`: parse(dump_pretty v) = v and dump_pretty(parse(dump_pretty v)) =
+        dump_pretty v for the same option records (every combination of the layout options), any parser flags.
+      Helper lemmas: Proofs/JsonNumberText (the number reader is local), Proofs/JsonEncodeParse, Proofs/JsonEncodeStrip,
+      Proofs/JsonEncodeLoose (the parser reads every white-space-padded rendering back; the indenting encoder writes one).
 
-  NOT proved (observed per case on the real code, see evidence): that the reference parser reads the INDENTED text back as v
-  (it follows from pretty_only_adds_whitespace only through a white-space-insensitivity lemma for the parser, which is not
-  proved; the `dump-roundtrip` and `encoder-model` streams judge every drawn text with the Lean reference parser instead);
+  NOT proved (observed per case on the real code, see evidence): the statements are about the Lean models and the Lean
+  reference parser — that the models ARE the C++ encoders is checked byte for byte on the generated inputs only, and
+  jsoncons' own parser is compared with the reference (C02), not modelled; option records whose new_line_chars / indent_char
+  are not white space (the library accepts them; the output is then not JSON) are outside the theorems;
   escape_all_non_ascii = true (\uXXXX and surrogate-pair arithmetic; the escaper model covers it and is tied, the read-back
   is judged by the Lean reference reader on every generated string incl. U+FFFF/U+10000 boundaries; the encoder model fixes
   it to false); number printing (C04: the literal is taken as given here); noesc-tagged strings, byte strings, half floats,
@@ -33,6 +37,7 @@
 import JV.Proofs.JsonEscape
 import JV.Proofs.JsonEncodeParse
 import JV.Proofs.JsonEncodeStrip
+import JV.Proofs.JsonEncodeLoose
 namespace JV.Props.C01
 open JV Model Model.JsonEscape Model.JsonEncode Spec.Rfc8259
 
@@ -99,6 +104,17 @@ theorem pretty_stripped_parses_back (fl : Flags) (o : PrettyOpts) (ho : WsLayout
   rw [pretty_only_adds_whitespace_wf o ho v hw]
   exact JsonEncode.compactS_parses_back fl o.solidus v hw hd
 
+/-- parse(dump_pretty v) = v: the reference parser reads the indenting encoder's text back as the value, for every layout
+    (indent, new-line characters, spaces, padding, the five line-split options, line length limit) and any parser flags -/
+theorem pretty_parses_back (fl : Flags) (o : PrettyOpts) (ho : WsLayout o) (v : JT) (hw : WF v)
+    (hd : JsonEncode.depth v ≤ fl.maxDepth) : parseText fl (pretty o v) = some v :=
+  JsonEncode.pretty_parses_back fl o ho v hw hd
+
+/-- dump_pretty(parse(dump_pretty v)) = dump_pretty v, byte for byte -/
+theorem pretty_canonical (fl : Flags) (o : PrettyOpts) (ho : WsLayout o) (v : JT) (hw : WF v)
+    (hd : JsonEncode.depth v ≤ fl.maxDepth) : (parseText fl (pretty o v)).map (pretty o) = some (pretty o v) := by
+  rw [pretty_parses_back fl o ho v hw hd]; rfl
+
 /-! ### non-vacuity: {"a":[1,-2.5e3,"x\n",{"b":null}],"k":true} -/
 def exDoc : JT :=
   .obj [([97], .arr [.num [49], .num [45, 50, 46, 53, 101, 51], .str [120, 10], .obj [([98], .null)]]), ([107], .bool true)]
@@ -121,6 +137,10 @@ example : pretty { indentSize := 2, colon := 0, comma := 2, padArr := true, aa :
     [123, 13, 10, 32, 32, 34, 97, 34, 58, 91, 32, 49, 32, 44, 45, 50, 46, 53, 101, 51, 32, 44, 13, 10, 32, 32, 32, 32, 34, 120, 92, 110, 34,
      32, 44, 13, 10, 32, 32, 32, 32, 123, 34, 98, 34, 58, 110, 117, 108, 108, 125, 13, 10, 32, 32, 32, 93, 32, 44, 13, 10, 32, 32, 34, 107,
      34, 58, 116, 114, 117, 101, 13, 10, 125] := by decide
+example : parseText ⟨true, true, 3⟩
+    (pretty { indentSize := 2, colon := 0, comma := 2, padArr := true, aa := 2, oa := 2, ao := 2, oo := 2, limit := 12, newLine := [13, 10] } exDoc) =
+    some exDoc :=
+  pretty_parses_back _ _ (by decide) _ (by decide) (by decide)
 example : stripWsOutsideStrings (pretty {} exDoc) = compact exDoc :=
   pretty_only_adds_whitespace_default exDoc (by decide)
 /-- white space inside a string literal is kept by the stripping function -/
